@@ -82,17 +82,21 @@ Definition lib_failing : proc :=
   mkProc KOp [] [] false TF [] [] (fun _ _ => Fail (perr "ValueError")).
 
 (* context processors *)
-Definition lib_rename (a b : string) : proc :=
+(* none_noop: the generated rename/delete processors treat a None VALUE as "key not found"
+   (generated fact; the repaired code tests for the key's presence instead) *)
+Definition lib_rename (none_noop : bool) (a b : string) : proc :=
   mkProc KCtx [a] [] true TAny [b] [a]
     (fun d ps => match lookup a ps with
-                 | Some VNone | None => Ok (d, VNone, [])
+                 | None => Ok (d, VNone, [])
+                 | Some VNone => if none_noop then Ok (d, VNone, []) else Ok (d, VNone, [CSet b VNone; CDel a])
                  | Some v => Ok (d, VNone, [CSet b v; CDel a])
                  end).
 
-Definition lib_delete (a : string) : proc :=
+Definition lib_delete (none_noop : bool) (a : string) : proc :=
   mkProc KCtx [a] [] true TAny [] [a]
     (fun d ps => match lookup a ps with
-                 | Some VNone | None => Ok (d, VNone, [])
+                 | None => Ok (d, VNone, [])
+                 | Some VNone => if none_noop then Ok (d, VNone, []) else Ok (d, VNone, [CDel a])
                  | Some _ => Ok (d, VNone, [CDel a])
                  end).
 
